@@ -301,6 +301,12 @@ def run_case(ctx, st, pt, p, heavy=True):
                     if rp.observed_fields(sl.slice(u, v)) != rp.observed_fields(a.slice(i + u, i + v)):
                         ctx.violation('slice-of-slice-differs', {'text': text, 'outer': [i, j], 'inner': [u, v]})
         a.slice(None, None)
+        # default bounds combined with an explicit one (judged by the slice contract with the defaults of the signature)
+        k0 = rng.randint(0, n)
+        a.slice(k0, None)
+        a.slice(None, k0)
+        a.copy().slice(k0, None, inplace=True)
+        a.copy().slice(None, k0, inplace=True)
         # the same operations on an annotation whose modification dictionary is not in residue order (as left behind
         # by reverse / shuffle): the contracts on slice/split judge these executions with the same model
         rr = a.reverse()
